@@ -36,7 +36,7 @@ type mutant struct {
 	Rule      string   `json:"rule"`
 	Construct string   `json:"construct_contains"`
 	Note      string   `json:"note,omitempty"`
-	Edits     []edit   `json:"edits,omitempty"` // further edits (same or other files), all must apply
+	Edits     []edit   `json:"edits,omitempty"`   // further edits (same or other files), all must apply
 	Control   bool     `json:"control,omitempty"` // behaviour-preserving edit: every check must stay silent
 	All       bool     `json:"all,omitempty"`
 }
